@@ -495,10 +495,11 @@ def corr_hz(ctx, exe, drv, n):
             if abs(k1_ - k2_) > 1e-3 * (k1_ + k2_) and abs(c1_ - c2_) > 1e-3 and abs(xdot) > 1e-3:
                 hist['discriminating_contacts'] = hist.get('discriminating_contacts', 0) + 1
                 hist['discriminating_' + ('approaching' if xdot > 0 else 'separating')] = hist.get('discriminating_' + ('approaching' if xdot > 0 else 'separating'), 0) + 1
+            if abs(fn - max(fdoc, 0.0)) > 1e-7 * dscale + 1e-13 and (pred is None or (pred[1] == 'magnitude-not-documented' and abs(fn - max(fdoc, 0.0)) > pred[3])):
+                # keep the magnitude violation with the largest absolute discrepancy as the reported failing input
+                pred = (lines[ci], 'magnitude-not-documented', 'contact %d: normal force %.12g, documented max(fN,0) = %.12g (k1^(2/3) %g, k2^(2/3) %g, c1 %g, c2 %g, x %g, xdot %g, R %g)' % (cid, fn, max(fdoc, 0.0), k1_, k2_, c1_, c2_, x_, xdot, g[7]), abs(fn - max(fdoc, 0.0)))
             if pred is None:
                 if fn < -1e-9 * scale: pred = (lines[ci], 'normal-attractive', 'contact %d: normal component %g' % (cid, fn))
-                elif abs(fn - max(fdoc, 0.0)) > 1e-7 * dscale + 1e-13:
-                    pred = (lines[ci], 'magnitude-not-documented', 'contact %d: normal force %.12g, documented max(fN,0) = %.12g (k1^(2/3) %g, k2^(2/3) %g, c1 %g, c2 %g, x %g, xdot %g, R %g)' % (cid, fn, max(fdoc, 0.0), k1_, k2_, c1_, c2_, x_, xdot, g[7]))
                 elif fdoc > 0 and abs(frc[9] - 0.4 * fH_ * x_) > 1e-7 * max(abs(frc[9]), 1e-12) + 1e-13:
                     pred = (lines[ci], 'potential-energy-not-documented', 'contact %d: PE %.12g, documented 2/5 fH x = %.12g' % (cid, frc[9], 0.4 * fH_ * x_))
                 elif norm(ft) > fn * (us + uv * vs) * (1 + 1e-7) + 1e-12 * scale: pred = (lines[ci], 'friction-above-limit', 'contact %d: |ft| %g > %g' % (cid, norm(ft), fn * (us + uv * vs)))
